@@ -61,7 +61,7 @@ def random_bar(rng, values, key=None, meter=None):
 
 
 def random_text(rng):
-    return "".join(rng.choice(TITLE_CHARS) for _ in range(rng.randint(1, 12))).strip() or "T"
+    return "".join(rng.choice(TITLE_CHARS) for _ in range(rng.randint(1, 12)))        # (blanks at either end belong to the text)
 
 
 def expected_entries(bspec):
